@@ -227,8 +227,69 @@ theorem importRenum_tid : ∀ (ts : List Trig) (u n : Nat), (importRenum u n ts)
   | [], _, _ => rfl
   | t :: ts, u, n => by simp [importRenum, importRenum_tid ts, range'_succ]
 
-theorem import_good {c : Bool} {tm tm' : TM} {ts : List Trig} {index : Option Nat} {news : List Nat} (hi : Inv tm)
-    (h : importTriggers tm ts index = .ok (tm', news)) : Good c tm tm' ∧ tm.next ≤ tm'.next := by
+/-- the state right after the imported copies were added (either variant) is a good successor -/
+theorem import_append_good {c : Bool} {tm tmA : TM} {ts' : List Trig} {m : Nat} (hi : Inv tm)
+    (huid : ts'.map (·.uid) = range' tm.next m) (htid : ts'.map (·.tid) = range' tm.trigs.length m)
+    (htr : tmA.trigs = tm.trigs ++ ts') (hnx : tmA.next = tm.next + m)
+    (hord : (tmA.order = range tmA.trigs.length ∧ tmA.hashed = uids tmA) ∨ (tmA.order = tm.order ∧ tmA.hashed = tm.hashed)) :
+    Good c tm tmA := by
+  have hlen : ts'.length = m := by
+    have := congrArg List.length huid; simpa using this
+  have huA : uids tmA = uids tm ++ range' tm.next m := by simp [uids, htr, huid]
+  have hinvA : Inv tmA :=
+    { ids := fun i t ht => by
+        rw [htr] at ht
+        by_cases hlt : i < tm.trigs.length
+        · rw [getElem?_append_left hlt] at ht; exact hi.ids i t ht
+        · rw [getElem?_append_right (by omega)] at ht
+          have h1 := congrArg (fun l => l[i - tm.trigs.length]?) htid
+          simp only [getElem?_map, ht, Option.map_some] at h1
+          have hlt2 : i - tm.trigs.length < m := by
+            have := (List.getElem?_eq_some_iff.1 ht).1; omega
+          rw [getElem?_range' hlt2] at h1
+          have := Option.some.inj h1
+          omega
+      order := by
+        rcases hord with ⟨ho, _⟩ | ⟨ho, hh⟩
+        · exact ⟨_, ho ▸ isPerm_range _, fun _ => rfl⟩
+        · obtain ⟨k, hk, hkn⟩ := hi.order
+          refine ⟨k, ho ▸ hk, fun he => ?_⟩
+          rw [hh, huA] at he
+          by_cases hm0 : m = 0
+          · subst hm0
+            simp only [range'_zero, append_nil] at he
+            rw [htr, hkn he]; simp [← hlen]
+          · exfalso
+            have : tm.next ∈ tm.hashed := by rw [he]; simp; omega
+            have := hi.hfresh _ this
+            omega
+      uniq := by
+        rw [huA, nodup_append]
+        refine ⟨hi.uniq, nodup_range', ?_⟩
+        intro a ha b hb e; subst e
+        have := hi.fresh a ha
+        simp at hb; omega
+      fresh := fun u hu => by
+        rw [huA, mem_append] at hu
+        rw [hnx]
+        rcases hu with h' | h'
+        · have := hi.fresh u h'; omega
+        · simp at h'; omega
+      hfresh := fun u hu => by
+        rw [hnx]
+        rcases hord with ⟨_, hh⟩ | ⟨_, hh⟩
+        · rw [hh, huA, mem_append] at hu
+          rcases hu with h' | h'
+          · have := hi.fresh u h'; omega
+          · simp at h'; omega
+        · rw [hh] at hu
+          have := hi.hfresh u hu; omega }
+  exact ⟨hinvA, Step.of_append hi ts' htr (fun x hx => by
+    have : x.uid ∈ ts'.map (·.uid) := mem_map.2 ⟨x, hx, rfl⟩
+    rw [huid] at this; simp at this; omega) (by omega)⟩
+
+theorem import_good {c : Bool} {ext : Bool} {tm tm' : TM} {ts : List Trig} {index : Option Nat} {news : List Nat} (hi : Inv tm)
+    (h : importTriggers ext tm ts index = .ok (tm', news)) : Good c tm tm' ∧ tm.next ≤ tm'.next := by
   unfold importTriggers at h
   simp only at h
   generalize hts' : (importRenum tm.next tm.trigs.length ts).map
@@ -239,76 +300,31 @@ theorem import_good {c : Bool} {tm tm' : TM} {ts : List Trig} {index : Option Na
     rw [← hts', map_map]; exact importRenum_tid ts _ _
   have hlen : ts'.length = ts.length := by
     have := congrArg List.length huid; simpa using this
-  let tmA : TM := { trigs := tm.trigs ++ ts', order := range (tm.trigs ++ ts').length,
-                    hashed := (tm.trigs ++ ts').map (·.uid), next := tm.next + ts.length }
-  have huA : uids tmA = uids tm ++ range' tm.next ts.length := by simp [uids, tmA, huid]
-  have hinvA : Inv tmA :=
-    { ids := fun i t ht => by
-        simp only [tmA] at ht
-        by_cases hlt : i < tm.trigs.length
-        · rw [getElem?_append_left hlt] at ht; exact hi.ids i t ht
-        · rw [getElem?_append_right (by omega)] at ht
-          have h1 := congrArg (fun l => l[i - tm.trigs.length]?) htid
-          simp only [getElem?_map, ht, Option.map_some] at h1
-          have hlt2 : i - tm.trigs.length < ts.length := by
-            have := (List.getElem?_eq_some_iff.1 ht).1; omega
-          rw [getElem?_range' hlt2] at h1
-          have := Option.some.inj h1
-          omega
-      order := ⟨_, isPerm_range _, fun _ => rfl⟩
-      uniq := by
-        rw [huA, nodup_append]
-        refine ⟨hi.uniq, nodup_range', ?_⟩
-        intro a ha b hb e; subst e
-        have := hi.fresh a ha
-        simp at hb; omega
-      fresh := fun u hu => by
-        rw [huA, mem_append] at hu
-        simp only [tmA]
-        rcases hu with h' | h'
-        · have := hi.fresh u h'; omega
-        · simp at h'; omega
-      hfresh := fun u hu => by
-        have : u ∈ uids tmA := hu
-        rw [huA, mem_append] at this
-        simp only [tmA]
-        rcases this with h' | h'
-        · have := hi.fresh u h'; omega
-        · simp at h'; omega }
-  have hstepA : Step c tm tmA := Step.of_append hi ts' rfl (fun x hx => by
-    have : x.uid ∈ ts'.map (·.uid) := mem_map.2 ⟨x, hx, rfl⟩
-    rw [huid] at this; simp at this; omega) (by simp [tmA])
-  have gA : Good c tm tmA := ⟨hinvA, hstepA⟩
+  generalize htmA : (if ext = true then ({ tm with trigs := tm.trigs ++ ts', next := tm.next + ts.length } : TM)
+      else { trigs := tm.trigs ++ ts', order := range (tm.trigs ++ ts').length, hashed := (tm.trigs ++ ts').map (·.uid),
+             next := tm.next + ts.length }) = tmA at h
+  have htr : tmA.trigs = tm.trigs ++ ts' := by rw [← htmA]; cases ext <;> rfl
+  have hnx : tmA.next = tm.next + ts.length := by rw [← htmA]; cases ext <;> rfl
+  have gA : Good c tm tmA := by
+    apply import_append_good hi huid htid htr hnx
+    rw [← htmA]
+    cases ext with
+    | false => exact Or.inl ⟨rfl, rfl⟩
+    | true => exact Or.inr ⟨rfl, rfl⟩
   cases index with
   | none =>
     simp only [Except.ok.injEq, Prod.mk.injEq] at h
     obtain ⟨rfl, _⟩ := h
-    exact ⟨gA, by simp⟩
+    exact ⟨gA, by omega⟩
   | some k =>
     simp only at h
     cases hm : move tmA (ts'.map (·.tid)) k with
-    | error e =>
-      have hm' := hm
-      simp only [tmA] at hm'
-      rw [hm'] at h
-      cases h
+    | error e => rw [hm] at h; cases h
     | ok tm2 =>
-      have hm' := hm
-      simp only [tmA] at hm'
-      rw [hm'] at h
+      rw [hm] at h
       simp only [Except.ok.injEq, Prod.mk.injEq] at h
       obtain ⟨rfl, _⟩ := h
-      have hne : ts'.map (·.tid) ≠ [] := by
-        intro e
-        rw [e] at hm
-        simp [move] at hm
-      obtain ⟨D, tm3, _, _, hm3, g3, hn3, _⟩ := move_spec (c := c) hinvA hne (by rw [htid]; exact nodup_range')
-        (by
-          intro i hi'
-          rw [htid] at hi'
-          simp only [tmA, length_append, hlen]
-          simp at hi'; omega) k
-      rw [hm] at hm3; cases hm3
-      exact ⟨gA.trans hi g3, by rw [hn3]; simp [tmA]⟩
+      obtain ⟨g3, hn3⟩ := move_sound (c := c) gA.inv (by rw [htid]; exact nodup_range') hm
+      exact ⟨gA.trans hi g3, by omega⟩
 
 end Aoe.Trig
